@@ -63,6 +63,68 @@ def keyword_orders(rng: random.Random, n: int) -> list[bytes]:
     return out
 
 
+# nothing in these is decoded: every hit is a context or a leaf, found by the one search pass over the input itself
+CONTEXT_ONLY = [
+    b'Set shell_obj = CreateObject("8.8.8.8 evil.exe 1.2.3.4")',
+    b"x = CreateObject('10.1.2.3 kernel32.dll tool.exe admin@example.org')  run.exe",
+    b"copy \\\\fileserver.example.com\\share\\setup.exe C:\\Users\\bob\\AppData\\evil.dll now",
+    b"visit http://evil-site.net/a/b/payload.exe?x=1 or ftp://10.0.0.1/lib.dll today",
+    b"CreateObject(CreateObject(a.exe b.dll) c.exe) d.dll",
+    b"/usr/local/bin/tool.exe and /opt/x/libfoo.dll and plain.exe",
+    b"mail admin@evil-site.net about C:\\Windows\\System32\\cmd.exe /c",
+    b"GetProcAddress kernel32.dll VirtualAlloc notepad.exe 192.168.1.10",
+]
+
+
+def twice() -> list[bytes]:
+    """The same encoded blob two or three times in one input (equal decoded texts are searched one straight after the other),
+    and byte arrays / calls with a literal xor key in the same text."""
+    out = []
+    payloads = CONTEXT_ONLY[:5] + [b"beacon 8.8.8.8 with evil.exe to http://evil-site.net/x.dll now"]
+    for i, p in enumerate(payloads):
+        for e in (enc_b64, enc_hex, enc_atob, enc_xml):
+            if e is enc_xml and i % 2:
+                continue
+            blob = e(p + b" " * (-len(p) % 3))
+            out.append(b"first: " + blob + b" ; second: " + blob + b" ;")
+        blob = enc_b64(p + b" " * (-len(p) % 3))
+        out.append(blob + b"\n" + enc_hex(p) + b"\n" + blob + b"\n" + blob)
+    plain = b"duck goes quack with evil.exe from 10.1.2.3 " * 12
+    for key in (35, 7, 255):
+        arr = b", ".join(b"%d" % (c ^ key) for c in plain)
+        out.append(b"$b = " + arr + b" ; $b | % { $_ -bxor " + b"%d" % key + b" }")
+        out.append(b"[System.Convert]::FromBase64String('" + base64.b64encode(bytes(c ^ key for c in plain[:90])) + b"') -bxor %d" % key)
+        out.append(b"FromHexString('" + bytes(c ^ key for c in plain[:60]).hex().encode() + b"') -xor %d" % key)
+    return out
+
+
+def xor_state_inputs() -> list[bytes]:
+    """Two blobs side by side: one wraps (a levels deep) a text with a literal xor key, the other wraps (b levels deep) a byte
+    array xor-ed with a key held in a variable.  What is reported for one must not depend on whether, when or in which order
+    the other was searched (depth limits between a and b, second scans, later sessions)."""
+    plain = b"duck goes quack " * 34
+    out = []
+    for key, a, b in ((35, 2, 1), (35, 1, 2), (7, 3, 1), (200, 2, 2)):
+        lit = b"foreach ($b in $payload) { $out += [char]($b -bxor %d) }   " % key
+        arr = b"$k = Get-Key; $bytes = " + b", ".join(b"0x%02x" % (c ^ key) for c in plain) + b" ; $bytes | % { $_ -bxor $k }   "
+        first, second = lit, arr
+        for _ in range(a):
+            first = b"powershell -nop [Text.Encoding]::ASCII.GetString('" + base64.b64encode(first) + b"')  "
+        for _ in range(b):
+            second = b"iex ([Convert]::ToString('" + base64.b64encode(second) + b"'))  "
+        out.append(b"<a>" + first + b"</a> <b>" + second + b"</b>")
+    return out
+
+
+def deep_paren_sweep() -> list[bytes]:
+    """A call whose argument nests parentheses nearly as deep as the interpreter's recursion limit, inside one decoding layer:
+    what a decoder makes of it must not depend on how deep the Python stack already is when it is called."""
+    out = []
+    for d in range(900, 1000, 4):
+        out.append(b"x = atob('" + base64.b64encode(b"Set o = CreateObject(" + b"(" * d + b"1" + b")" * d + b") ' end") + b"');")
+    return out
+
+
 def rng_for(tag: str) -> random.Random:
     return random.Random(f"{SEED}:{tag}")
 
